@@ -132,7 +132,7 @@ def _nameclass(name):
 def _named_unit(names):
     acc = Acc()
     K = len(ARG_KINDS)
-    pnames = ["p", "q", "r", "s", "t"]
+    pnames = ["to", "from", "Beta", "alpha", "_z9"]     # deliberately not in any sorted order: source order is kept
     for name in names:
         ident = ident_of(name)
         for n in range(1, 6):
